@@ -157,6 +157,26 @@ func runC15(w *W) {
 					}
 				}
 			}
+			// month-separated stepping over more than a year of positions, one first weekday per day
+			if s == (d.J+3)%7 {
+				for _, n := range []int{63, -63, 70, -70, 131, -131} {
+					p0 := wpos{d.Y, d.M, wantIdx}
+					pt := p0.step(n, s)
+					if pt.y < 2 || pt.y > 9997 || pt.firstDay(s) < jdnFirst || pt.firstDay(s)+6 > lastOK {
+						continue
+					}
+					var ns *calendar.SolarWeek
+					if msg, p := try(func() { ns = wk.Next(n, true) }); p {
+						w.Viol(fmt.Sprintf("C15:Next(%d,true):panic:%s", n, d.Ymd), msg, where)
+						continue
+					}
+					w.R.Transitions++
+					w.R.Nontrivial++
+					if ns.GetFirstDay().ToYmd() != r1Ymd(pt.firstDay(s)) || ns.GetYear() != pt.y || ns.GetMonth() != pt.m || idxInMonth(r1JDN(ns.GetYear(), ns.GetMonth(), ns.GetDay()), s) != pt.i {
+						w.Viol(fmt.Sprintf("C15:Next(%d,true):%s", n, d.Ymd), fmt.Sprintf("%s: Next(%d,true) = %d-%d-%d (week starting %s), the position walk gives %d-%d week %d starting %s", where, n, ns.GetYear(), ns.GetMonth(), ns.GetDay(), ns.GetFirstDay().ToYmd(), pt.y, pt.m, pt.i, r1Ymd(pt.firstDay(s))), where)
+					}
+				}
+			}
 			// stepping
 			for _, n := range weekSteps {
 				tj := d.J + 7*n
